@@ -1138,9 +1138,16 @@ where
                     let _ = done.send(result);
                     return true; // signal batch_processor to exit — disk state is corrupted
                 }
-                if max_idx > 0 {
-                    *pending_max = (*pending_max).max(max_idx);
-                }
+                // Everything at or above `truncate_from` that had been persisted before is gone from the
+                // store, so neither watermark may stay above the truncation point: otherwise entries
+                // appended later at those indexes fall below `durable_index + 1` and are never persisted
+                // (and `flush()` short-circuits on the stale watermark).
+                this.durable_index.fetch_min(truncate_from.saturating_sub(1), Ordering::AcqRel);
+                *pending_max = if max_idx > 0 {
+                    max_idx
+                } else {
+                    (*pending_max).min(truncate_from.saturating_sub(1))
+                };
                 let _ = done.send(result);
                 false
             }
